@@ -6,11 +6,12 @@ package deployment
 //@ track waitAllUpdatedAndReady as waitAll
 
 //@ func (*realCanaryController).UpgradeBatch
-//@ props C01 C06
+//@ props C01 C06 C07
 //@ requires r != nil && ctx != nil && r.canaryInfo != nil
 //@ ensures one_write: #Patch <= 1 && #Update == 0 && #Create == 0 && #Delete == 0
 //@ ensures only_forward: #Patch == 1 ==> old(ctx.DesiredUpdatedReplicas) > old(r.canaryInfo.Replicas)
 //@ ensures idempotent: old(r.canaryInfo.Replicas) >= old(ctx.DesiredUpdatedReplicas) ==> #Patch == 0 && result == nil
+//@ ensures {C07} writes_unless_target_met: #Patch == 0 ==> old(r.canaryInfo.Replicas) >= old(ctx.DesiredUpdatedReplicas)
 //@ ensures body: #Patch == 1 ==> patchBody(#Patch.arg3) == sprintf("{\"spec\":{\"replicas\":%d}}", old(ctx.DesiredUpdatedReplicas))
 
 //@ func (*realController).CalculateBatchContext
